@@ -199,6 +199,8 @@ def run(chk: Check):
             if rng.random() < 0.4:
                 scn.agent = "eps"; scn.agent_opts = (rng.choice([-1.0, 0.5]), rng.choice([0.0, 0.3, 1.0]), 0.0)
         chk.count("scheduler:" + sched)
+        scn.keep_buffers = i % 3 == 1
+        chk.count("sampler_arrays:" + ("one_buffer_rewritten_in_place" if scn.keep_buffers else "fresh_each_call"))
         if rng.random() < 0.4:
             scn.real_len = scn.simlen + rng.choice([-1, 1, 5, 20]) if scn.simlen > scn.dims + 3 or rng.random() < 0.5 else scn.simlen + 7
             scn.real_len = max(scn.real_len, 2)
